@@ -320,6 +320,9 @@ func genSignals(p *pkgInfo) (string, error) {
 		{"standardRenderer", "start"}, {"standardRenderer", "stop"}, {"standardRenderer", "kill"}, {"standardRenderer", "listen"},
 		{"Program", "shutdown"}, {"Program", "recoverFromPanic"}, {"Program", "handlePanic"}, {"Program", "initCancelReader"},
 		{"", "Every"}, {"", "Tick"},
+		{"", "NewProgram"}, {"Program", "ReleaseTerminal"}, {"Program", "RestoreTerminal"}, {"Program", "restoreTerminalState"},
+		{"Program", "restoreInput"}, {"Program", "initTerminal"}, {"Program", "initInput"}, {"standardRenderer", "stopTicker"},
+		{"", "WithoutSignals"}, {"", "WithoutSignalHandler"}, {"", "WithoutCatchPanics"}, {"", "readInputs"},
 	} {
 		s, ok := g.shape(f[0], f[1])
 		if !ok {
